@@ -1014,7 +1014,14 @@ func ghostType(s string) types.Type {
 // functions (unexported fields / variables; no unsafe, no reflection - an assumption recorded in the evidence).
 func ownedKey(k, pkg string) bool {
 	k = strings.TrimPrefix(k, "ghost.")
-	if strings.HasPrefix(k, pkg+".") {
+	// component keys use the package NAME (typeKey); cells of address-taken locals of pointer / slice type carry the
+	// type's "*" / "[]" prefix
+	name := pkg
+	if i := strings.LastIndex(name, "/"); i >= 0 {
+		name = name[i+1:]
+	}
+	kk := strings.TrimLeft(k, "*[]")
+	if strings.HasPrefix(kk, name+".") {
 		return true
 	}
 	if strings.HasPrefix(k, "G:") {
